@@ -139,7 +139,8 @@ pub fn generate(seed: u64, tier: &str, out: &mut dyn std::io::Write) {
             args.push("-d".into());
             args.push("3".into());
             args.push("-D".into());
-            args.push(format!("{}:{}", r.range(0, 2), *r.pick(&["ff", "2f6c69622f6c6962fffec32e736f", "c3"])));
+            // (entries 1 and 2: entry 0, the main program, keeps its empty name)
+            args.push(format!("{}:{}", r.range(1, 2), *r.pick(&["ff", "2f6c69622f6c6962fffec32e736f", "c3"])));
         }
         let t = match Target::spawn(&args) {
             Ok(t) => t,
